@@ -768,6 +768,7 @@ pub const GARBAGE: &[&str] = &[
     "@event(node:a,lane:b,)",
     "@event(node:,lane:b)",
     "@command(node:a lane:b)",
+    "@event(node:\"\\ud800\",lane:b)",
 ];
 
 fn lit_canon(t: &str) -> String {
@@ -924,7 +925,13 @@ impl<'c> World<'c> {
                     } else {
                         "?".to_string()
                     };
-                    let what = if msg.contains("Incomplete") { "parser-incomplete" } else { "other" };
+                    let what = if msg.contains("Incomplete") {
+                        "parser-incomplete"
+                    } else if msg.contains("CharTryFromError") {
+                        "surrogate-escape"
+                    } else {
+                        "other"
+                    };
                     exec_failures.push((
                         format!("sock:task-panicked:{}", what),
                         format!("the RemoteTask of side {} panicked: {} (pending invalid frame: {:?})", side, msg, poison),
@@ -1131,8 +1138,12 @@ impl<'c> World<'c> {
     }
 
     fn detach_agent(&mut self, a: usize) {
-        // the agent stops: everything already in its channel is consumed first so that nothing is
-        // lost silently; later writes by the remote task fail and make it look the node up again
+        // The agent stops when nothing is in flight (drain first) and after consuming everything in
+        // its channel, so that nothing is lost silently; later writes by the remote task fail and
+        // make it look the node up again. (A request that reaches the remote task while the agent
+        // it has *just* resolved is already gone is dropped on purpose - "Envelope not dispatched as
+        // agent stopped immediately" - that documented loss window is deliberately not exercised.)
+        self.settle();
         self.read_agent(a, usize::MAX);
         let ag = &mut self.agents[a];
         ag.live = false;
@@ -1997,7 +2008,7 @@ pub fn check(case: &Case) -> Verdict {
     }
 
     // an invalid frame: documented reaction is a close frame with the protocol error code
-    if let Some((t, Some(_), what)) = obs.poison.filter(|p| !obs.panicked[p.0]) {
+    if let Some((t, Some(_), what)) = obs.poison.filter(|p| !obs.panicked[p.0] && !obs.stuck[p.0]) {
         if !obs.task_done[t] {
             v.fail(format!("sock:invalid-frame-not-closed:{}", what), format!("side {} read a {} frame but its task is still running after the drain", t, what));
         } else {
